@@ -137,7 +137,7 @@ TNote == \/ /\ Ev.k = "park"
          \/ /\ Ev.k = "suspended"
             /\ frozen' = frozen \cup {P}
             /\ UNCHANGED <<cands, pend, cur, curv, resv, held, accS, delS, rejS, parked, cancelled, tm>>
-         \/ /\ Ev.k \in {"op", "wake", "panic"}
+         \/ /\ Ev.k \in {"op", "wake", "panic", "slept"}
             /\ UNCHANGED vars
 
 TFinal == Ev.k = "final" /\ UNCHANGED vars
